@@ -349,12 +349,6 @@ fn codepoints_from_class_positive(ct: CharacterClassType) -> CodePointSet {
     cps
 }
 
-/// Returns code points for a character class, optionally inverted.
-fn codepoints_from_class(ct: CharacterClassType, positive: bool) -> CodePointSet {
-    let cps = codepoints_from_class_positive(ct);
-    if positive { cps } else { cps.inverted() }
-}
-
 /// \return a Bracket for a given character escape (positive or negative).
 /// For icase mode, we expand the positive set first, then invert if needed.
 fn make_bracket_class(
@@ -374,14 +368,20 @@ fn make_bracket_class(
     ir::Node::Bracket(BracketContents { invert: false, cps })
 }
 
-fn add_class_atom(bc: &mut BracketContents, atom: ClassAtom) {
+fn add_class_atom(bc: &mut BracketContents, atom: ClassAtom, flags: &api::Flags) {
     match atom {
         ClassAtom::CodePoint(c) => bc.cps.add_one(c),
         ClassAtom::CharacterClass {
             class_type,
             positive,
         } => {
-            bc.cps.add_set(codepoints_from_class(class_type, positive));
+            // Case-insensitively, the complement is taken of the case-closed set:
+            // under iu, \W does not contain U+017F or U+212A, which fold to word characters.
+            let mut cps = codepoints_from_class_positive(class_type);
+            if flags.icase {
+                cps = unicode::add_icase_code_points_for_mode(cps, flags.unicode);
+            }
+            bc.cps.add_set(if positive { cps } else { cps.inverted() });
         }
         ClassAtom::Range { iv, negate } => {
             if negate {
@@ -891,14 +891,14 @@ where
 
             // Check for a dash; we may have a range.
             if !self.try_consume('-') {
-                add_class_atom(&mut result, first);
+                add_class_atom(&mut result, first, &self.flags);
                 continue;
             }
 
             let Some(second) = self.try_consume_bracket_class_atom()? else {
                 // No second atom. For example: [a-].
-                add_class_atom(&mut result, first);
-                add_class_atom(&mut result, ClassAtom::CodePoint(u32::from('-')));
+                add_class_atom(&mut result, first, &self.flags);
+                add_class_atom(&mut result, ClassAtom::CodePoint(u32::from('-')), &self.flags);
                 continue;
             };
 
@@ -923,9 +923,9 @@ where
             }
 
             // If it does not match a range treat as any match single characters.
-            add_class_atom(&mut result, first);
-            add_class_atom(&mut result, ClassAtom::CodePoint(u32::from('-')));
-            add_class_atom(&mut result, second);
+            add_class_atom(&mut result, first, &self.flags);
+            add_class_atom(&mut result, ClassAtom::CodePoint(u32::from('-')), &self.flags);
+            add_class_atom(&mut result, second, &self.flags);
         }
     }
 
